@@ -1059,16 +1059,21 @@ func c11MakeFragScenario(rng *rand.Rand) c11Scenario {
 		}
 		tpl := c11RandSeq(rng, n)
 		cls := []string{"frag"}
-		// fragment starts are multiples of a step a little smaller than the fragment length: plant products
-		// of every length so that they begin 0..lf+lr+mx bases before multiples of steps around it
-		for step := length - (mx + lf + lr); step <= length-mx-lf; step += 1 + rng.Intn(3) {
-			j := 1 + rng.Intn(n/step)
-			at := j*step - rng.Intn(lf+lr+mx+2)
-			d := 1 + rng.Intn(mx)
-			if rng.Intn(3) == 0 {
-				d = mx
+		// fragment starts are multiples of a step a little smaller than the fragment length (the overlap is
+		// about one amplicon): for every plausible step, products of (nearly) maximal length are planted so
+		// that they begin a few bases before a multiple of it - complete only in a fragment that starts early
+		// enough - and others at random offsets around it
+		for step := length - (mx + lf + lr) - 2; step <= length-mx-lf+2; step++ {
+			for rep := 0; rep < 2; rep++ {
+				j := 1 + rng.Intn(n/step)
+				at := j*step - 1 - rng.Intn(6)
+				d := mx
+				if rep == 1 {
+					at = j*step - rng.Intn(lf+lr+mx+2)
+					d = 1 + rng.Intn(mx)
+				}
+				c11Plant(rng, tpl, at, fwd, rev, rng.Intn(e+1), rng.Intn(e+1), d, rng.Intn(2) == 0)
 			}
-			c11Plant(rng, tpl, at, fwd, rev, rng.Intn(e+1), rng.Intn(e+1), d, rng.Intn(2) == 0)
 		}
 		for s := 0; s < 4; s++ {
 			c11Plant(rng, tpl, rng.Intn(n), fwd, rev, rng.Intn(e+2), rng.Intn(e+2), 1+rng.Intn(mx+1), rng.Intn(2) == 0)
